@@ -17,6 +17,22 @@ matrices stored by ClimateNetwork with 1e-6 (float32 storage).
 Where the counting rule is undefined (ES with fewer than three events in a series: no inner
 event; an ECA rate with no admissible event; an empty series) nothing but "nan or 0, or for an
 empty series in ECA an IndexError" is asserted.
+
+Extensions (second round):
+* threshold clauses on integer-dtype (int8..int64, uint8) and low-precision float (float16,
+  float32) data matrices, checks `make_event_matrix/dtype-*` and
+  `EventSeries.__init__/threshold-dtype-*`: the oracle compares the float64 value of every
+  stored sample with the float64 threshold (stated value, or exact linear-interpolation quantile
+  of the float64 values).  'value' clauses are asserted for every sample; 'quantile' clauses for
+  every sample when data and quantile are dyadic (NumPy's interpolation is then exact), otherwise
+  samples that are not exactly on the quantile but within 4 eps(dtype) max|x| of it are left out.
+* explicit timestamp vectors multiplied by 2**e, e in -40..40 (exact in binary floating point),
+  with taumax and lag multiplied by the same factor, checks `*/scaled-*`: ES / ECA / window rates
+  and the N x N matrices equal the counting formulas evaluated in Fractions on the rescaled
+  event times at every scale, stay in [0,1], and are bit-identical to the values at scale 1.
+  The timestamp vectors include pairs of distinct event times 2**-30 apart (between the two
+  series and inside one vector) and windows / lags of that size: events that are close but not
+  simultaneous must be counted by the directed rule, not as simultaneous.
 """
 import itertools
 import json
@@ -49,7 +65,24 @@ SCOPE = (
     "{0,1,2} ({0..3}) x quantile in {0,1/4,1/2,3/4,1} / value x above/below/default, seeded random "
     "T x N data with scalar and per-variable arguments, also through the constructor. "
     "EventSeriesClimateNetwork: seeded random observables x method x symmetrisation x window: event "
-    "matrix, similarity matrix, adjacency = (similarity > 0) off-diagonal, directed flag.")
+    "matrix, similarity matrix, adjacency = (similarity > 0) off-diagonal, directed flag. "
+    "Threshold clauses by dtype (dtype-*): data matrices of dtype int8/int16/int32/int64/uint8/"
+    "float16/float32 (and float64 with thresholds one float64 ulp next to a sample): all columns of "
+    "length 4 (thorough 5) over {-2..2} x every half-integer value between min and max (both signs) "
+    "and quantiles k/8 x above/below/default; seeded random T x N matrices (small and full-range "
+    "integers, dyadic and arbitrary low-precision floats, ties) with scalar / per-variable / mixed "
+    "methods, types and defaults, static and through the constructor; oracle: float64 value of each "
+    "sample vs float64 threshold (value clauses exact for every sample; quantile clauses exact for "
+    "dyadic inputs, else samples within 4 eps(dtype) max|x| of the quantile but not on it left out); "
+    "integer data keep max - min <= iinfo(dtype).max, beyond that exactly one dedicated probe "
+    "(make_event_matrix/narrow-int-quantile-overflow: int8 samples spanning more than 127). "
+    "Time rescaling by powers of two (scaled-*): seeded pairs T=8..36 and matrices N=2..4 with "
+    "explicit timestamps (uniform grid, random dyadic, and near-simultaneous: stamps of the two "
+    "series or consecutive stamps 2**-30 apart), scales 2**e for e in {-40,-30,-20,-7,0,5,20,40} "
+    "with taumax in {inf,0,2**-30,1,5/2,4} and lag in {-3/4,0,2**-30,1/2,1} rescaled alike: ES, the "
+    "four ECA rates, the three window rates and the directed ES/ECA matrices equal the Fraction "
+    "counting formulas at every scale (1e-12 / 1e-6), lie in [0,1] and equal the scale-1 values "
+    "bit for bit.")
 RULE = (
     "Distinct+nontrivial: an ES pair counts when both sequences have >= 3 events (inner events "
     "exist); an ECA pair when both are non-empty and at least one rate is defined for some setting; a "
@@ -513,6 +546,271 @@ def check_threshold(rep, data, methods, values, types, via="static", exact=True)
                      "values": W["values"], "types": types})
 
 
+# ------------------------------------------------------------------ threshold extraction by dtype
+
+INT_DTYPES = ["int8", "int16", "int32", "int64", "uint8"]
+LOWP_DTYPES = ["float16", "float32"]
+
+
+def check_threshold_dtype(rep, data, dtype, methods, values, types, via="static", exact=True):
+    """data: T x N list of lists of Python numbers that are exactly representable in `dtype`.
+    The library gets np.array(data, dtype); the oracle works on the float64 value of every stored
+    sample (as a Fraction) and the float64 threshold value(s)."""
+    E = ES()
+    arr = np.array(data, dtype=dtype)
+    T, N = arr.shape
+    a64 = arr.astype(np.float64)
+    W = {"kind": "threshold_dtype", "data": a64.tolist(), "dtype": str(np.dtype(dtype)), "methods": methods,
+         "values": None if values is None else ([float(v) for v in values] if isinstance(values, (list, tuple))
+                                                else float(values)),
+         "types": types, "via": via, "exact": exact}
+    kw = dict(threshold_method=lib_arg(methods, False), threshold_values=lib_arg(values, True),
+              threshold_types=(list(types) if isinstance(types, (list, tuple)) else types))
+    if via == "static":
+        got, exc = call(E.make_event_matrix, arr, **kw)
+    else:
+        obj, exc = call(E, arr, **kw)
+        got = None if exc is not None else obj.get_event_matrix()
+    m, v, t = per_var(methods, N), per_var(values, N), per_var(types, N)
+    pre = "make_event_matrix/dtype-" if via == "static" else "EventSeries.__init__/threshold-dtype-"
+    rep.case()
+    if exc is not None:
+        rep.fail(pre + "raises", W, repr(exc))
+        return
+    got = np.asarray(got)
+    if got.shape != (T, N):
+        rep.fail(pre + "shape", W, "shape %r" % (got.shape,))
+        return
+    eps = float(np.finfo(dtype).eps) if np.dtype(dtype).kind == "f" else float(np.finfo(np.float64).eps)
+    nontrivial = False
+    for i in range(N):
+        col = [F(float(a64[k, i])) for k in range(T)]
+        thr, typ, ev = S.threshold_events(col, m[i], None if v[i] is None else F(float(v[i])), t[i])
+        nontrivial = nontrivial or len(set(col)) > 1
+        guard = 0.0
+        if not exact and (m[i] == "quantile" or v[i] is None):
+            guard = 4.0 * eps * max(abs(float(c)) for c in col)
+        if not exact and t[i] is None and m[i] == "value":
+            # default direction decided by threshold >= median: not asserted when numerically equal
+            # (equality is asserted when the median itself is representable in the data's dtype)
+            med = S.median(col)
+            med_exact = np.dtype(dtype).kind != "f" or F(float(np.dtype(dtype).type(float(med)))) == med
+            if not (thr == med and med_exact) and \
+                    abs(float(thr - med)) <= 4.0 * eps * max(abs(float(c)) for c in col):
+                continue
+        bad = []
+        for k in range(T):
+            if guard and col[k] != thr and abs(float(col[k] - thr)) <= guard:
+                continue
+            if got[k, i] not in (0, 1) or int(got[k, i]) != ev[k]:
+                bad.append(k)
+        if bad:
+            if t[i] is None:
+                name = "default-type"
+            elif v[i] is None:
+                name = "default-value"
+            else:
+                name = "%s-%s" % (m[i], typ)
+            rep.fail(pre + name, W, "dtype %s variable %d threshold %r type %s: samples %s got %s expected %s"
+                     % (np.dtype(dtype), i, float(thr), typ, a64[:, i].tolist(), got[:, i].astype(int).tolist(), ev))
+    rep.case(("thr-dtype", str(np.dtype(dtype)), a64.tobytes(), repr(methods), repr(W["values"]), repr(types), via),
+             nontrivial=nontrivial,
+             sample={"kind": "threshold_dtype", "dtype": str(np.dtype(dtype)), "data": a64.T.tolist(),
+                     "methods": methods, "values": W["values"], "types": types})
+
+
+# ------------------------------------------------------------------ time rescaling by powers of two
+
+SCALE_EXPS = [0, -40, -30, -20, -7, 5, 20, 40]      # scale 1 first: the reference for invariance
+TINY = F(1, 2 ** 30)
+
+
+def exact_floats(vals):
+    """Fractions -> float64 array; raises when a value is not exactly representable."""
+    out = np.array([float(v) for v in vals], dtype=np.float64)
+    for a, b in zip(out.tolist(), vals):
+        if F(a) != b:
+            raise ValueError("timestamp %r not exact in float64" % (b,))
+    return out
+
+
+def evf(x, ts):
+    return [ts[k] for k in range(len(x)) if x[k]]
+
+
+def mulc(v, c):
+    return None if v is None else v * c
+
+
+def identical(a, b):
+    a, b = float(a), float(b)
+    return a == b or (math.isnan(a) and math.isnan(b))
+
+
+def scaled_wit(kind, ts1, ts2, taumax, taumax_eca, lag, **extra):
+    w = {"kind": kind, "ts1": [[t.numerator, t.denominator] for t in ts1],
+         "ts2": None if ts2 is None else [[t.numerator, t.denominator] for t in ts2],
+         "taumax": None if taumax is None else [taumax.numerator, taumax.denominator],
+         "taumax_eca": None if taumax_eca is None else [taumax_eca.numerator, taumax_eca.denominator],
+         "lag": [lag.numerator, lag.denominator]}
+    w.update(extra)
+    return w
+
+
+def check_scaled_pair(rep, x, y, ts1, ts2, taumax, taumax_eca, lag, exps=SCALE_EXPS):
+    """x, y: 0/1 arrays; ts1, ts2: strictly increasing lists of dyadic Fractions (timestamps of
+    the two series); taumax (None = unbounded) for ES, taumax_eca (finite) for ECA; lag."""
+    E = ES()
+    x, y = np.asarray(x, dtype=int), np.asarray(y, dtype=int)
+    base = {}
+    defined = False
+    for e in exps:
+        c = F(2) ** e
+        t1, t2 = [t * c for t in ts1], [t * c for t in ts2]
+        a1, a2 = exact_floats(t1), exact_floats(t2)
+        tx, ty = evf(x, t1), evf(y, t2)
+        W = lambda **k: scaled_wit("scaled_pair", ts1, ts2, taumax, taumax_eca, lag, x=x.tolist(),  # noqa: E731
+                                   y=y.tolist(), scale_exp=e, **k)
+        # ---------------- ES
+        tm, lg = mulc(taumax, c), lag * c
+        spec = S.es_values(tx, ty, tm, lg)
+        rep.case()
+        res, exc = call(E.event_synchronization, x, y, ts1=a1, ts2=a2, taumax=fl(tm), lag=float(lg))
+        if exc is not None:
+            rep.fail("event_synchronization/scaled-raises", W(method="ES"), repr(exc))
+        else:
+            a, b = float(res[0]), float(res[1])
+            if spec is None:
+                if not (agree(a, None, 0) and agree(b, None, 0)):
+                    rep.fail("event_synchronization/scaled-undefined", W(method="ES"), "got %r" % ((a, b),))
+            else:
+                defined = True
+                if not (agree(a, spec[0], TOL_ES) and agree(b, spec[1], TOL_ES)):
+                    rep.fail("event_synchronization/scaled-formula", W(method="ES"),
+                             "time unit x 2**%d: got %r, counting formula %r" % (e, (a, b), spec))
+            if not (in_range(a) and in_range(b)):
+                rep.fail("event_synchronization/scaled-range", W(method="ES"), "time unit x 2**%d: got %r" % (e, (a, b)))
+            if "es" not in base:
+                base["es"] = (a, b)
+            elif not (identical(a, base["es"][0]) and identical(b, base["es"][1])):
+                rep.fail("event_synchronization/scaled-invariance", W(method="ES"),
+                         "time unit x 2**%d: %r, unscaled: %r" % (e, (a, b), base["es"]))
+        # ---------------- ECA
+        if not tx or not ty or taumax_eca is None or lag < 0:
+            continue
+        tm2 = taumax_eca * c
+        spec = S.eca_rates(tx, ty, tm2, lg)
+        rep.case()
+        res, exc = call(E.event_coincidence_analysis, x, y, float(tm2), ts1=a1, ts2=a2, lag=float(lg))
+        if exc is not None:
+            rep.fail("event_coincidence_analysis/scaled-raises", W(method="ECA"), repr(exc))
+        else:
+            res = [float(r) for r in res]
+            defined = defined or any(s_ is not None for s_ in spec)
+            if not all(agree(r, s_, TOL_ECA) for r, s_ in zip(res, spec)):
+                rep.fail("event_coincidence_analysis/scaled-formula", W(method="ECA"),
+                         "time unit x 2**%d: got %r, counting formula %r (None: undefined, nan or 0 accepted)"
+                         % (e, res, [None if s_ is None else float(s_) for s_ in spec]))
+            if not all(in_range(r) for r in res):
+                rep.fail("event_coincidence_analysis/scaled-range", W(method="ECA"), "time unit x 2**%d: %r" % (e, res))
+            if "eca" not in base:
+                base["eca"] = res
+            elif not all(identical(p, q) for p, q in zip(res, base["eca"])):
+                rep.fail("event_coincidence_analysis/scaled-invariance", W(method="ECA"),
+                         "time unit x 2**%d: %r, unscaled: %r" % (e, res, base["eca"]))
+        obj = cfg_object(tm2, lg)
+        for w in WINDOWS:
+            rep.case()
+            sw = (S.eca_window(tx, ty, tm2, lg, w), S.eca_window(ty, tx, tm2, lg, w))
+            r5, exc = call(obj._eca_coincidence_rate, x, y, window_type=w, ts1=a1, ts2=a2)
+            if exc is not None:
+                rep.fail("_eca_coincidence_rate/scaled-raises", W(method="ECA", window=w), repr(exc))
+                continue
+            r5 = [float(r) for r in r5]
+            if not (agree(r5[0], sw[0], TOL_ECA) and agree(r5[1], sw[1], TOL_ECA)) or \
+                    not (in_range(r5[0]) and in_range(r5[1])):
+                rep.fail("_eca_coincidence_rate/scaled-" + w, W(method="ECA", window=w),
+                         "time unit x 2**%d: got %r, counting formula %r" % (e, r5, sw))
+            if ("w", w) not in base:
+                base["w", w] = r5
+            elif not all(identical(p, q) for p, q in zip(r5, base["w", w])):
+                rep.fail("_eca_coincidence_rate/scaled-invariance", W(method="ECA", window=w),
+                         "time unit x 2**%d: %r, unscaled: %r" % (e, r5, base["w", w]))
+    return defined
+
+
+def check_scaled_matrix(rep, Em, ts, taumax, lag, exps=SCALE_EXPS):
+    """Em: T x N 0/1 matrix, ts: strictly increasing dyadic Fractions, taumax None (ES only) or
+    finite (ES and ECA), lag >= 0."""
+    E = ES()
+    Em = np.asarray(Em).astype(int)
+    T, N = Em.shape
+    base = {}
+    defined = False
+    for e in exps:
+        c = F(2) ** e
+        tsc = [t * c for t in ts]
+        arr = exact_floats(tsc)
+        tm, lg = mulc(taumax, c), lag * c
+        cols = [evf(Em[:, i], tsc) for i in range(N)]
+        W = lambda **k: scaled_wit("scaled_matrix", ts, None, taumax, taumax, lag, E=Em.tolist(),  # noqa: E731
+                                   scale_exp=e, **k)
+        obj, exc = call(E, Em, timestamps=arr, taumax=fl(tm), lag=float(lg))
+        if exc is not None:
+            rep.fail("EventSeries.__init__/scaled-raises", W(), repr(exc))
+            return
+        rep.case()
+        D, exc = call(obj.event_series_analysis, method="ES", symmetrization="directed")
+        if exc is not None:
+            rep.fail("event_series_analysis/scaled-es", W(), repr(exc))
+        else:
+            D = np.array(D, dtype=float)
+            bad = []
+            for i in range(N):
+                for j in range(i + 1, N):
+                    sp = S.es_values(cols[i], cols[j], tm, lg)
+                    defined = defined or sp is not None
+                    sp = (None, None) if sp is None else sp
+                    if not (agree(D[i, j], sp[0], TOL_ES) and agree(D[j, i], sp[1], TOL_ES)) or \
+                            not (in_range(D[i, j]) and in_range(D[j, i])):
+                        bad.append((i, j, D[i, j], D[j, i], sp))
+            if bad:
+                rep.fail("event_series_analysis/scaled-es", W(), "time unit x 2**%d: (i,j,got_ij,got_ji,formula): %r"
+                         % (e, bad[:3]))
+            if "es" not in base:
+                base["es"] = D
+            elif not np.array_equal(D, base["es"], equal_nan=True):
+                rep.fail("event_series_analysis/scaled-invariance", W(method="ES"),
+                         "time unit x 2**%d: %s, unscaled: %s" % (e, D.tolist(), base["es"].tolist()))
+        if taumax is None or not all(cols):
+            continue
+        for w in WINDOWS:
+            rep.case()
+            D, exc = call(obj.event_series_analysis, method="ECA", symmetrization="directed", window_type=w)
+            if exc is not None:
+                rep.fail("event_series_analysis/scaled-eca-" + w, W(window=w), repr(exc))
+                continue
+            D = np.array(D, dtype=float)
+            bad = []
+            for i in range(N):
+                for j in range(N):
+                    if i == j:
+                        continue
+                    sp = S.eca_window(cols[i], cols[j], tm, lg, w)
+                    defined = defined or sp is not None
+                    if not agree(D[i, j], sp, TOL_ECA) or not in_range(D[i, j]):
+                        bad.append((i, j, D[i, j], sp))
+            if bad:
+                rep.fail("event_series_analysis/scaled-eca-" + w, W(window=w),
+                         "time unit x 2**%d: (i,j,got,formula): %r" % (e, bad[:3]))
+            if ("eca", w) not in base:
+                base["eca", w] = D
+            elif not np.array_equal(D, base["eca", w], equal_nan=True):
+                rep.fail("event_series_analysis/scaled-invariance", W(method="ECA", window=w),
+                         "time unit x 2**%d: %s, unscaled: %s" % (e, D.tolist(), base["eca", w].tolist()))
+    return defined
+
+
 # ------------------------------------------------------------------ EventSeriesClimateNetwork
 
 def check_escn(rep, obs, method, taumax, lag, sym, window, thr):
@@ -778,8 +1076,194 @@ def job_escn(rep, seed, count):
         check_escn(rep, obs, method, tm, lag, sym, window, thr)
 
 
+def job_threshold_dtype_exh(rep, L, lo, hi, all_dtypes):
+    kinds = INT_DTYPES + LOWP_DTYPES
+    qs = [F(k, 8) for k in range(9)]
+    for idx, vals in enumerate(itertools.product(range(-2, 3), repeat=L)):
+        if not lo <= idx < hi:
+            continue
+        dts = kinds if all_dtypes else [kinds[idx % 7], kinds[(3 * idx + 1) % 7]]
+        for dt in dict.fromkeys(dts):
+            col = [v + 2 for v in vals] if dt == "uint8" else list(vals)      # unsigned: 0..4
+            data = [[v] for v in col]
+            for typ in ("above", "below", None):
+                for q in qs:
+                    check_threshold_dtype(rep, data, dt, "quantile", q, typ)
+                for v2 in range(2 * min(col), 2 * max(col) + 1):
+                    check_threshold_dtype(rep, data, dt, "value", F(v2, 2), typ)
+                check_threshold_dtype(rep, data, dt, "quantile", None, typ)
+                check_threshold_dtype(rep, data, dt, "value", None, typ)
+
+
+def job_threshold_dtype_rand(rep, seed, count):
+    rng = np.random.RandomState(seed)
+    kinds = INT_DTYPES + LOWP_DTYPES + ["float64"]
+    for c in range(count):
+        dt = kinds[c % len(kinds)]
+        N = int(rng.randint(1, 5))
+        T = int(rng.randint(N + 2, 31))
+        exact = True
+        integer = dt in INT_DTYPES
+        if integer:
+            info = np.iinfo(dt)
+            if (c // len(kinds)) % 3 == 0:
+                # wide range, but max - min <= iinfo.max: NumPy's integer interpolation b - a of
+                # np.quantile wraps around beyond that (dedicated probe narrow-int-quantile-overflow)
+                hi_ = min(int(info.max), 30000) if dt == "uint8" else min(int(info.max) // 2, 15000)
+                lo_ = 0 if dt == "uint8" else -hi_
+            else:
+                lo_, hi_ = (0, 12) if dt == "uint8" else (-6, 6)
+            data = rng.randint(lo_, hi_ + 1, size=(T, N)).astype(np.float64)
+        elif (c // len(kinds)) % 2 == 0:
+            den = 2 if dt == "float16" else 8
+            data = rng.randint(-6 * den, 6 * den + 1, size=(T, N)) / float(den)
+        else:
+            data = rng.randn(T, N).astype(dt).astype(np.float64)
+            if c % 4 == 0:
+                data = np.round(data, 1).astype(dt).astype(np.float64)      # many ties
+            exact = False
+        m = [str(rng.choice(["quantile", "value"])) for _ in range(N)]
+        t = [str(rng.choice(["above", "below"])) for _ in range(N)]
+        v = []
+        for i in range(N):
+            col = sorted(data[:, i].tolist())
+            if m[i] == "quantile":
+                if exact and rng.rand() < 0.8:
+                    v.append(F(int(rng.randint(0, 9)), 8))
+                else:
+                    v.append(F(float(rng.choice([0.1, 0.15, 0.3, 0.5, 0.65, 0.9, 0.95]))))
+                    exact = False
+            elif col[0] == col[-1]:
+                v.append(F(col[0]))
+            elif integer:
+                k = int(rng.randint(int(col[0]), int(col[-1])))
+                v.append(F(k) + F(int(rng.choice([1, 2, 2, 3])), 4))       # non-integer, both signs
+            else:
+                how = int(rng.randint(4))
+                s_ = col[int(rng.randint(T))]
+                if how == 0:
+                    v.append((F(s_) + F(col[int(rng.randint(T))])) / 2)
+                elif how == 1:
+                    v.append(F(s_))                                        # exactly on a sample
+                else:       # the float64 neighbour of a sample, inside the variable's range
+                    up = s_ < col[-1] and (how == 2 or s_ == col[0])
+                    v.append(F(float(np.nextafter(s_, np.inf if up else -np.inf))))
+        per = c % 2 == 0
+        if per:
+            methods, values, types = m, v, t
+        else:
+            methods, values, types = m[0], v[0], t[0]
+            if methods == "value":          # one value must lie inside every variable's range
+                lo_ = max(float(data[:, i].min()) for i in range(N))
+                hi_ = min(float(data[:, i].max()) for i in range(N))
+                if lo_ > hi_:
+                    methods, values = "quantile", F(3, 4)
+                elif lo_ == hi_:
+                    values = F(lo_)
+                elif integer:
+                    values = F(int(rng.randint(int(lo_), int(hi_)))) + F(1, 2)
+                else:
+                    values = (F(lo_) + F(hi_)) / 2
+        dflt = c % 5
+        if dflt == 1:
+            types = None
+        elif dflt == 2:
+            values = None
+        elif dflt == 3 and per:
+            types = ["above" if i % 2 else "below" for i in range(N)]       # mixed directions
+        check_threshold_dtype(rep, data.tolist(), dt, methods, values, types,
+                              via="static" if c % 4 else "constructor", exact=exact)
+
+
+def job_narrow_int_probe(rep):
+    """Dedicated probe (one case): quantile threshold of int8 data whose range exceeds 127.  The
+    general dtype family keeps max - min <= iinfo(dtype).max; this single case documents what
+    happens beyond."""
+    E = ES()
+    col = [-84, -60, -44, 116, 98, 122]
+    arr = np.array([[v] for v in col], dtype=np.int8)
+    W = {"kind": "narrow_int_probe", "data": [[v] for v in col], "dtype": "int8", "methods": "quantile",
+         "values": 0.5, "types": "above"}
+    rep.case(("narrow-int-probe",), nontrivial=True)
+    got, exc = call(E.make_event_matrix, arr, threshold_method="quantile", threshold_values=0.5,
+                    threshold_types="above")
+    thr, _, ev = S.threshold_events([F(v) for v in col], "quantile", F(1, 2), "above")
+    if exc is not None or np.asarray(got)[:, 0].astype(int).tolist() != ev:
+        rep.fail("make_event_matrix/narrow-int-quantile-overflow", W,
+                 "int8 samples %s, median (0.5-quantile) = %s, 'above': expected events %s, got %s"
+                 % (col, float(thr), ev, repr(exc) if exc is not None else np.asarray(got)[:, 0].astype(int).tolist()))
+
+
+def fine_ts(rng, T, mode):
+    """'grid': 0,1,2,...; 'dyadic': random gaps k/4; 'near': as dyadic, but about every fourth gap
+    is 1..3 x 2**-30 (distinct, nearly simultaneous stamps)."""
+    if mode == "grid":
+        return [F(k) for k in range(T)]
+    t = [F(int(rng.randint(-80, 80)), 4)]
+    for _ in range(T - 1):
+        if mode == "near" and rng.rand() < 0.25:
+            t.append(t[-1] + TINY * int(rng.randint(1, 4)))
+        else:
+            t.append(t[-1] + F(int(rng.randint(1, 13)), 4))
+    return t
+
+
+def jitter_ts(rng, ts):
+    """Second timestamp vector: every stamp moved by j x 2**-30, j in -2..2 (strictly increasing)."""
+    out = [t + int(rng.randint(-2, 3)) * TINY for t in ts]
+    for k in range(1, len(out)):
+        if out[k] <= out[k - 1]:
+            out[k] = out[k - 1] + TINY
+    return out
+
+
+def job_scaled_pairs(rep, seed, count):
+    rng = np.random.RandomState(seed)
+    for c in range(count):
+        T = int(rng.randint(8, 37))
+        p, q = rng.choice([0.2, 0.35, 0.5, 0.8], size=2)
+        x = (rng.rand(T) < p).astype(int)
+        y = (rng.rand(T) < q).astype(int)
+        if c % 4 == 0:
+            y = np.roll(x, int(rng.randint(0, 3)))
+        mode = ["grid", "dyadic", "near"][c % 3]
+        ts1 = fine_ts(rng, T, mode)
+        ts2 = jitter_ts(rng, ts1) if (mode == "near" or c % 5 == 0) else ts1
+        tm = [None, None, F(0), TINY, F(1), F(5, 2), F(4)][int(rng.randint(7))]
+        lag = [F(0), F(0), TINY, F(1, 2), F(1), F(-3, 4)][int(rng.randint(6))]
+        tm2 = [F(0), TINY, 2 * TINY, F(1), F(5, 2), F(4)][int(rng.randint(6))]
+        if check_scaled_pair(rep, x, y, ts1, ts2, tm, tm2, lag):
+            rep.nontrivial.add(("scaled-pair", seed, c))
+            if c == 2 and len(rep.samples) < 1:
+                rep.samples.append({"kind": "scaled_pair", "x": x.tolist(), "y": y.tolist(),
+                                    "ts1": [float(t_) for t_ in ts1], "ts2": [float(t_) for t_ in ts2],
+                                    "scales": ["2**%d" % e for e in SCALE_EXPS]})
+
+
+def job_scaled_matrices(rep, seed, count):
+    rng = np.random.RandomState(seed)
+    for c in range(count):
+        N = int(rng.randint(2, 5))
+        T = int(rng.randint(6, 25))
+        dens = rng.choice([0.3, 0.5, 0.7], size=N)
+        Em = (rng.rand(T, N) < dens).astype(int)
+        for i in range(N):
+            if not Em[:, i].any():
+                Em[int(rng.randint(T)), i] = 1
+        if set(np.unique(Em).tolist()) != {0, 1}:
+            continue
+        ts = fine_ts(rng, T, ["grid", "dyadic", "near"][c % 3])
+        tm = [None, F(0), TINY, F(1), F(2), F(7, 2)][int(rng.randint(6))]
+        lag = [F(0), F(0), TINY, F(1, 2), F(1)][int(rng.randint(5))]
+        if check_scaled_matrix(rep, Em, ts, tm, lag):
+            rep.nontrivial.add(("scaled-matrix", seed, c))
+
+
 JOBS = {"pairs": job_pairs, "randpairs": job_randpairs, "matrices": job_matrices,
-        "threshold_exh": job_threshold_exh, "threshold_rand": job_threshold_rand, "escn": job_escn}
+        "threshold_exh": job_threshold_exh, "threshold_rand": job_threshold_rand, "escn": job_escn,
+        "threshold_dtype_exh": job_threshold_dtype_exh, "threshold_dtype_rand": job_threshold_dtype_rand,
+        "scaled_pairs": job_scaled_pairs, "scaled_matrices": job_scaled_matrices,
+        "narrow_int_probe": job_narrow_int_probe}
 
 
 def run_job(spec):
@@ -831,11 +1315,20 @@ def plan(args):
         jobs.append((args, "matrices", (s + 100 + k, 25 if quick else 150)))
         jobs.append((args, "threshold_rand", (s + 200 + k, 150 if quick else 1000)))
         jobs.append((args, "escn", (s + 300 + k, 40 if quick else 250)))
+        jobs.append((args, "threshold_dtype_rand", (s + 400 + k, 300 if quick else 2000)))
+        jobs.append((args, "scaled_pairs", (s + 500 + k, 30 if quick else 200)))
+        jobs.append((args, "scaled_matrices", (s + 600 + k, 20 if quick else 120)))
     L, alpha = (5, 3) if quick else (6, 4)
     tot = alpha ** L
     step = -(-tot // 8)
     for lo in range(0, tot, step):
         jobs.append((args, "threshold_exh", (L, alpha, lo, min(tot, lo + step))))
+    jobs.append((args, "narrow_int_probe", ()))
+    L2 = 4 if quick else 5
+    tot = 5 ** L2
+    step = -(-tot // 16)
+    for lo in range(0, tot, step):
+        jobs.append((args, "threshold_dtype_exh", (L2, lo, min(tot, lo + step), True)))
     return jobs
 
 
@@ -860,6 +1353,25 @@ def replay(rep, w):
         elif vals is not None:
             vals = F(vals)
         check_threshold(rep, data, w["methods"], vals, w["types"], via=w["via"], exact=w["exact"])
+    elif k == "threshold_dtype":
+        vals = w["values"]
+        if isinstance(vals, list):
+            vals = [F(v) for v in vals]
+        elif vals is not None:
+            vals = F(vals)
+        check_threshold_dtype(rep, w["data"], w["dtype"], w["methods"], vals, w["types"], via=w["via"],
+                              exact=w["exact"])
+    elif k == "narrow_int_probe":
+        job_narrow_int_probe(rep)
+    elif k in ("scaled_pair", "scaled_matrix"):
+        fr = lambda q: None if q is None else F(q[0], q[1])  # noqa: E731
+        ts1 = [fr(q) for q in w["ts1"]]
+        if k == "scaled_pair":
+            ts2 = [fr(q) for q in w["ts2"]]
+            check_scaled_pair(rep, np.array(w["x"], dtype=int), np.array(w["y"], dtype=int), ts1, ts2,
+                              fr(w["taumax"]), fr(w["taumax_eca"]), fr(w["lag"]))
+        else:
+            check_scaled_matrix(rep, np.array(w["E"], dtype=int), ts1, fr(w["taumax"]), fr(w["lag"]))
     elif k == "escn":
         obs = [[F(v) for v in row] for row in w["obs"]]
         thr = None if w["thr"] is None else (w["thr"][0], F(w["thr"][1]), w["thr"][2])
